@@ -824,7 +824,7 @@ func tokenKinds() ([]string, error) {
 		}
 		for _, s := range lx {
 			if n == "EOF" {
-				continue // a NUL rune: EOF for the lexer as it is, ILLEGAL once lex-nul-truncates-input is fixed
+				continue // a NUL rune: an ILLEGAL token now (EOF before commit d745e6e); inserted for its own sake
 			}
 			toks, _, _ := c03ImplLex(s)
 			if len(toks) == 0 || toks[0].Type != n {
@@ -979,12 +979,17 @@ var stmtSkeletons = []string{
 	"for @ := range @\n@\nend\n", "for range @\n@\nend\n", "func @\n@\nend\n", "func @:@ @:@\n    return @\nend\n", "func @ @:@...\n@\nend\n",
 	"on @\n@\nend\n", "on key k:string\n@\nend\n", "return @\n", "break\n", "@\n", "@ @ @\n", "@[@] = @\n", "@.@ = @\n", "@ := [@ @ @]\n", "@ := {@:@ @:@}\n",
 	"@ := @.(@)\n", "@ := [[@] @ [@]]\n", "@ := @[@:@]\n", "(@)\n", "@ @\n",
+	"a:[]any\na = @\n", "a:{}any\na = @\n", "a:[]num\na = @\n", "b:[][]num\na:[]any\na = @\n", "b:{}[]num\na:[]any\na = @\n", "b:[]{}num\na:{}any\na = @\n",
+	"b:[][]num\nfor x := range b\n    a:@\n    a = @\nend\n", "print (typeof (@))\n", "print (@)\n", "func g a:[]any\n    print a\nend\ng @\n", "b:@\na:@\na = @\n",
 }
 
 var holeFill = []string{
 	"x", "y", "f", "1", "2", `"a"`, "true", "num", "string", "any", "[]num", "{}any", "[]", "{}", "[1]", "[x]", `["a"]`, "{a:1}", "(f 1)", "(len x)",
 	"x+1", "x + 1", "-x", "!x", "x[0]", "x.a", "x == y", "x and y", "print", "len", "func", "end", "if", "", " ", "\n", "(", ")", "[", "]", "{", "}", ":", ":=", "=", ".", "...",
 	"x:num", "f x", "1 2", "a b c", "// c", "$",
+	// empty literals and slices / elements / fields of literals and of nested variables
+	"[][:]", "[[]][0]", "[{}][0]", "{a:[]}.a", "{a:{}}.a", "([][:])", "([])", "({})", "[[1]][0]", "{b:[1]}.b", "{b:[1]}[\"b\"]", "[{b:1}][0]",
+	"[]+[]", "[]*2", "[[]]", "[1][:]", "[[1] [2]][1:]", "(typeof [])", "b[0]", "b.x", "b[0][:]", "b[:1]", "[b][0]", "[][]num", "{}[]num", "[]any", "{}any", "b", "a",
 }
 
 func genStmtSoup(rng *rand.Rand, n int) string {
@@ -1075,7 +1080,7 @@ func genStringLit(rng *rand.Rand) string {
 // ---------------------------------------------------------------- run
 
 var c03FixedCorpus = []mutCase{
-	// witnesses of the _refuted lemmas / known findings (DESIGN.md section 7 rows 1, 2)
+	// regression witnesses of the repaired findings (findings.d/C03.txt fixed: lines) and of C03_*_before_fix
 	{"func 1", "corpus"}, {"func", "corpus"}, {"func\n", "corpus"}, {"func 1\nend\n", "corpus"},
 	{"x := [1]\narr := [[2] x [\"a\"]]\n", "corpus"}, {"x := [1]\nm := {a:[2] b:x c:[\"a\"]}\n", "corpus"},
 	{"a\x00b", "corpus"}, {"print 1\x00 ))) garbage \"", "corpus"}, {"\x00", "corpus"},
@@ -1234,10 +1239,48 @@ func runC03(cfg Config, r *Result) {
 		add(mutCase{genDeepNest(rng, cfg.N(300, 600)), "deep-nest"})
 	}
 	flush()
+	c03DeepNestingProbe(cfg, r)
 	if fatalConfirmed >= 3 {
 		r.Note("parser oracle cut short after %d confirmed hangs / process deaths (remaining inputs counted as parse:skipped)", fatalConfirmed)
 	}
 	r.Note("parser oracle: %d inputs in %.1fs on %d workers; lexer oracle + model correspondence: %.1fs", total, tParse.Seconds(), nw, tLex.Seconds())
+}
+
+// c03DeepNestingProbe records, as notes only, how parser.Parse behaves on deep nesting: recursive
+// descent uses Go stack proportional to the depth, and 4 000 000 nested parentheses (8 MB of source)
+// exhaust the 1 GB stack limit, a fatal error recover cannot catch (observed once by hand, about 50 s;
+// not part of the run). The probe stays at depths that are safe and shows the trend.
+func c03DeepNestingProbe(cfg Config, r *Result) {
+	w, err := startParseWorker("VERIF_C03_PARSE_TIMEOUT_MS=60000")
+	if err != nil {
+		r.Note("deep nesting probe: could not start a worker: %v", err)
+		return
+	}
+	defer func() { w.kill() }()
+	probe := func(name, prefix, open, inner, cl string, depths []int) {
+		parts := []string{}
+		for _, d := range depths {
+			src := prefix + strings.Repeat(open, d) + inner + strings.Repeat(cl, d) + "\n"
+			t0 := time.Now()
+			rep, alive := w.ask(src)
+			dt := time.Since(t0)
+			st := rep.Status
+			if rep.Status == "violation" {
+				st = rep.Key
+			}
+			parts = append(parts, fmt.Sprintf("depth %d: %s in %.2fs", d, st, dt.Seconds()))
+			r.Dist("deep-nesting-probe:" + st)
+			if !alive {
+				w.kill()
+				if w, err = startParseWorker("VERIF_C03_PARSE_TIMEOUT_MS=60000"); err != nil {
+					break
+				}
+			}
+		}
+		r.Note("deep nesting probe (note only, not a violation), %s: %s", name, strings.Join(parts, "; "))
+	}
+	probe("nested parentheses `x := (((…1…)))`; 4,000,000 levels exhaust the 1 GB Go stack (fatal, not recoverable)", "x := ", "(", "1", ")", []int{5000, 10000, 20000})
+	probe("nested array literals `print [[[…1…]]]` (the type of depth d is rebuilt, printed or compared at every level: superlinear)", "print ", "[", "1", "]", []int{400, 800, 1600, 3200}[:cfg.N(3, 4)])
 }
 
 // genDeepNest: deeply nested (balanced or cut) brackets. Depth stays below 700: parsing nested array
@@ -1320,18 +1363,19 @@ func shrinkCase(src, key string, w **parseWorker) string {
 	return strings.Join(ddmin(spans(cur)), "")
 }
 
-// c03ModelName replays the witness of C03_lex_tiles_whole_input_refuted (a, NUL, b) on the
-// implementation and picks the model it has to correspond to: `lexer` (Lexer.lex, mirrors the
-// NUL-is-EOF defect) while the witness reproduces, `lexer-fixed` (Lexer.lex_fixed, for which the
-// unguarded tiling theorem is proved) once the lexer treats NUL as an ordinary rune.
+// c03ModelName: the model in force is `lexer` (Lexer.lex: lookAt returns a non-rune sentinel
+// beyond the end, a NUL in the source is an ILLEGAL token). The witness of
+// C03_lex_before_fix_tiles_whole_input_refuted (a, NUL, b) is replayed on the implementation as
+// a regression check: if the token stream ends at the NUL again, the lexer oracle reports
+// lex-nul-truncates-input and the correspondence with `lexer` fails.
 func c03ModelName(r *Result) string {
 	toks, _, _ := c03ImplLex("a\x00b")
-	if len(toks) == 2 && toks[1].Type == "EOF" && toks[1].Off == 1 {
-		r.Note("lexer model: `lexer` (the implementation reproduces the witness of C03_lex_tiles_whole_input_refuted: a NUL b lexes as IDENT EOF@1)")
-		return "lexer"
+	if len(toks) == 4 && toks[1].Type == "ILLEGAL" && toks[3].Off == 3 {
+		r.Note("lexer model: `lexer`; regression witness a NUL b lexes as IDENT ILLEGAL IDENT EOF@3 (not as before commit d745e6e: IDENT EOF@1)")
+	} else {
+		r.Note("lexer model: `lexer`; REGRESSION: a NUL b no longer lexes as IDENT ILLEGAL IDENT EOF@3")
 	}
-	r.Note("lexer model: `lexer-fixed` (the implementation no longer ends the token stream at U+0000; theorems C03_lex_fixed_* apply)")
-	return "lexer-fixed"
+	return "lexer"
 }
 
 func countDocs(c []corpusProg) int {
